@@ -264,7 +264,7 @@ Proof. reflexivity. Qed.
 Lemma real_table_ok : table_ok type_priority type_priority_default = true.
 Proof. vm_compute. reflexivity. Qed.
 
-Theorem native_types_order_invariant (ord ord' : list str) :
+Theorem sort_types_order_invariant (ord ord' : list str) :
   NoDup ord -> NoDup ord' -> seteq ord ord' -> native_guard ord = true ->
   sort_types ord = sort_types ord'.
 Proof.
@@ -289,8 +289,9 @@ Definition ty_object : str := [111;98;106;101;99;116]%N.
 Definition ty_str : str := [115;116;114]%N.
 Definition ty_int : str := [105;110;116]%N.
 
-(* without the guard the set order shows through: the {bytes, object} tie *)
-Theorem native_types_order_refuted :
+(* without the guard sort_types keeps the order of its argument for the {bytes, object} tie
+   (a remark about the function; Attr.native_types no longer feeds it a set order) *)
+Theorem sort_types_tie_refuted :
   exists ord ord', NoDup ord /\ NoDup ord' /\ seteq ord ord' /\ sort_types ord <> sort_types ord'.
 Proof.
   exists [ty_bytes; ty_object], [ty_object; ty_bytes]. repeat split.
@@ -305,6 +306,65 @@ Qed.
 Lemma out_of_table_types :
   filter (fun t => negb (in_table t)) datatype_python_types = [ty_bytes; ty_object].
 Proof. vm_compute. reflexivity. Qed.
+
+(* ---- native_types: order-preserving de-duplication ---- *)
+Lemma nub_In_str (l : list str) x : In x (nub str_eqb l) <-> In x l.
+Proof.
+  induction l as [|y l IH]; cbn; [tauto|]. rewrite filter_In, IH. split.
+  - intros [->|[H _]]; [left; reflexivity | right; exact H].
+  - intros [->|H]; [left; reflexivity|]. destruct (str_eqb_spec x y) as [->|Hn]; [left; reflexivity|].
+    right. split; [exact H|]. apply negb_true_iff. destruct (str_eqb_spec x y); congruence.
+Qed.
+
+Lemma nub_NoDup_str (l : list str) : NoDup (nub str_eqb l).
+Proof.
+  induction l as [|y l IH]; cbn; [constructor|]. constructor.
+  - rewrite filter_In. intros [_ H]. rewrite str_eqb_refl in H. discriminate.
+  - apply NoDup_filter. exact IH.
+Qed.
+
+Lemma filter_all_id {T} (p : T -> bool) (l : list T) : (forall x, In x l -> p x = true) -> filter p l = l.
+Proof.
+  induction l as [|y l IH]; cbn; intros H; [reflexivity|].
+  rewrite (H y (or_introl eq_refl)). f_equal. apply IH. intros x Hx. apply H. right. exact Hx.
+Qed.
+
+Lemma nub_id_str (l : list str) : NoDup l -> nub str_eqb l = l.
+Proof.
+  induction 1 as [|y l Hy _ IH]; cbn; [reflexivity|]. f_equal. rewrite IH.
+  apply filter_all_id. intros x Hx. apply negb_true_iff.
+  destruct (str_eqb_spec x y) as [->|_]; [contradiction | reflexivity].
+Qed.
+
+Lemma native_types_shape_ok : native_types_is_order_preserving = true.
+Proof. reflexivity. Qed.
+
+(* Attr.native_types is a function of the declared type list alone: the members, once each,
+   in declared order (so an already duplicate-free declaration is returned unchanged) *)
+Theorem native_types_declared_order (types : list str) :
+  native_types_is_order_preserving = true /\
+  NoDup (native_types types) /\ seteq (native_types types) types /\
+  (NoDup types -> native_types types = types) /\
+  native_types (native_types types) = native_types types.
+Proof.
+  split; [exact native_types_shape_ok|]. unfold native_types.
+  split; [apply nub_NoDup_str|]. split; [intros x; apply nub_In_str|]. split; [apply nub_id_str|].
+  apply nub_id_str. apply nub_NoDup_str.
+Qed.
+
+(* ... and sort_types of it is that list, stably sorted by priority *)
+Theorem sorted_native_types_spec (types : list str) :
+  Permutation (sorted_native_types types) (native_types types) /\
+  StronglySorted (fun a b => prio_leb a b = true) (sorted_native_types types).
+Proof.
+  unfold sorted_native_types, sort_types. rewrite shortcut_is_2.
+  destruct (Nat.ltb (length (native_types types)) 2) eqn:El.
+  - split; [reflexivity|]. apply Nat.ltb_lt in El.
+    destruct (native_types types) as [|a [|b r]]; cbn in El; try lia; repeat constructor.
+  - split; [apply isort_perm|]. apply isort_sorted.
+    + intros x y _ _. unfold prio_leb. rewrite !N.leb_gt, N.leb_le. lia.
+    + intros x y z _ _ _. unfold prio_leb. rewrite !N.leb_le. lia.
+Qed.
 
 (* ====================================================================== sequence numbers *)
 Open Scope N_scope.
